@@ -351,6 +351,12 @@ def rules(chk, db):
     chk.rule('SS', 'stream status mapping', minimum=2)
     rwrules.check_stream_class(chk, db, 'nop::StreamReader', 'reader', 'ST', 'SS')
     rwrules.check_stream_class(chk, db, 'nop::StreamWriter', 'writer', 'ST', 'SS')
+    chk.rule('FD', 'fd transport: every requested byte or an error; EINTR retried; end of data reported', minimum=4)
+    rwrules.check_fd_class(chk, db, 'nop::FdReader', 'reader', 'FD')
+    rwrules.check_fd_class(chk, db, 'nop::FdWriter', 'writer', 'FD')
+    from .. import encrules
+    chk.rule('CO', 'Result / Optional / Variant replies are composed of the documented component encodings on both ends', minimum=30)
+    encrules.composition(chk, db, 'CO', ('WritePayload', 'ReadPayload'))
     witness.run(chk, 'c14_rpc.cpp', 'W', 'compile-time witnesses for interface declarations and bindings', minimum=6)
 
 
